@@ -41,15 +41,35 @@ func c04Algos(p *Prog, l *Ledger) []*c04Algo {
 		if info == nil || info.Delegate != nil || !info.Field.Valid() {
 			continue
 		}
-		// only the adaptive algorithms: estimate written in OnSample (or its helpers)
+		// only the adaptive algorithms: the estimate is written by OnSample or by what OnSample calls (a limit that is
+		// only ever set from outside - SetLimit, an update function applied on request - reports what it was given)
 		written := false
-		for _, f := range p.Funcs {
-			if f.Signature.Recv() == nil || derefNamed(f.Signature.Recv().Type()) != T || f.Name() == "SetLimit" {
-				continue
+		if on := p.Method(T, "OnSample"); on != nil {
+			reach := map[*ssa.Function]bool{on: true}
+			work := []*ssa.Function{on}
+			for d := 0; d < 5 && len(work) > 0; d++ {
+				var next []*ssa.Function
+				for _, g := range work {
+					allInstrs(g, func(ins ssa.Instruction) {
+						if mc, ok := ins.(*ssa.MakeClosure); ok {
+							if cf, ok := mc.Fn.(*ssa.Function); ok && !reach[cf] {
+								reach[cf] = true
+								next = append(next, cf)
+							}
+						}
+						if c := p.CallOf(ins); c != nil && c.Static != nil && c.Static.Blocks != nil && p.InModule(c.Static) && !reach[c.Static] {
+							reach[c.Static] = true
+							next = append(next, c.Static)
+						}
+					})
+				}
+				work = next
 			}
-			for _, a := range p.Accesses(f) {
-				if a.Write && sameField(a.Field, info.Field) && !freshBase(a) {
-					written = true
+			for f := range reach {
+				for _, a := range p.Accesses(f) {
+					if a.Write && sameField(a.Field, info.Field) && !freshBase(a) {
+						written = true
+					}
 				}
 			}
 		}
